@@ -42,9 +42,9 @@ func genType(rt *rapid.T, depth int) hs.Type {
 		return genScalarType(rt)
 	}
 	switch w := rapid.IntRange(0, 15).Draw(rt, "kind"); {
-	case w < 5:
+	case w < 3:
 		return genScalarType(rt)
-	case w < 6:
+	case w < 5:
 		return hs.TAnyObj
 	case w < 10:
 		return hs.TList(genType(rt, depth-1))
